@@ -6,6 +6,7 @@ CONSTANTS
   MaxWrites = 2
   MaxPersists = 2
   AllowSync = TRUE
+  AllowFail = TRUE
   AllowDelete = TRUE
   BugNoTemp = TRUE
 VIEW mview
